@@ -114,15 +114,15 @@ impl World {
   pub fn new(mds: &[u8]) -> (World, String) {
     let s = Server::new(mds.to_vec()).expect("server");
     let ks = key_state(s.verif_pprf());
-    let head = format!(
-      "srv.run {} {} {} {} {} {}",
-      hex(sk_of(&s).as_bytes()),
-      hex(&ks.prgs[0].key),
-      hex(&ks.prgs[1].key),
-      hex(&ks.prefixes[0].1),
-      hex(&ks.prefixes[1].1),
-      hex(mds)
-    );
+    let fresh_ok = ks.prgs.len() == 2 && ks.prefixes.len() == 2 && ks.punctured.is_empty();
+    let seed_of = |i: usize| ks.prefixes.get(i).map(|p| hex(&p.1)).unwrap_or_else(|| hex(&[0u8; 32]));
+    let prg_of = |i: usize| ks.prgs.get(i).map(|p| hex(&p.key)).unwrap_or_else(|| hex(&[0u8; 32]));
+    let head = format!("srv.run {} {} {} {} {} {}", hex(sk_of(&s).as_bytes()), prg_of(0), prg_of(1), seed_of(0), seed_of(1), hex(mds));
+    let fresh_verdict = if fresh_ok {
+      Ok(())
+    } else {
+      Err(format!("a freshly created server (tags {:?}) does not hold the two depth-1 nodes and nothing punctured: {} retained nodes, {} punctured inputs", mds, ks.prefixes.len(), ks.punctured.len()))
+    };
     let pk = pk_bytes(&s);
     (
       World {
@@ -133,7 +133,7 @@ impl World {
         pk0: vec![pk],
         ops: vec![],
         obs: vec![],
-        verdict: Ok(()),
+        verdict: fresh_verdict,
         commitments: vec![],
       },
       head,
@@ -609,6 +609,35 @@ pub fn gen_c12(seed: u64, thorough: bool, only: Option<u64>, out: &mut Out) {
     if distinct.len() != per_tag.len() {
       verdict = Err("two tags give the same output for one input".to_string());
     }
+    // differs between inputs and between servers: a second input on this server, the same input on another server
+    let mut input2 = input.clone();
+    if input2.is_empty() { input2.push(0) } else { let l = input2.len(); input2[l - 1] ^= 1; }
+    let (mut in_nul, mut in_nl, mut in_cr) = (input.clone(), input.clone(), input.clone());
+    in_nul.push(0);
+    in_nl.push(b'\n');
+    in_cr.extend_from_slice(b"\r\n");
+    for (inp, srv_new) in [(input2, false), (in_nul, false), (in_nl, false), (in_cr, false), (input.clone(), true)] {
+      let (mut w2, head2) = World::new(&mds);
+      let ww = if srv_new { &mut w2 } else { &mut w };
+      let (b, rs) = blind(&inp);
+      if let Some(ev) = ww.eval(0, mds[0], &b, false) {
+        let ub = Client::unblind(&ev.output, &CurveScalar::from(rs));
+        let mut fin = [0u8; 32];
+        Client::finalize(&inp, mds[0], &ub, &mut fin);
+        if Some(&fin.to_vec()) == per_tag.get(&mds[0]) {
+          verdict = Err(if srv_new { "two independently keyed servers give the same output".to_string() } else { "two different inputs give the same output".to_string() });
+        }
+        let key = fin.to_vec();
+        let desc = format!("group {} {}", gi, if srv_new { "other server" } else { "other input" });
+        if let Some(prev) = finals.insert(key, desc.clone()) {
+          verdict = Err(format!("output collision between {} and {}", prev, desc));
+        }
+      }
+      if srv_new {
+        let (c, o, v) = w2.finish(head2);
+        out.case(c, o, v);
+      }
+    }
     // every request, also one made after OTHER tags were punctured, gives the same output: puncture tags around the
     // registered ones (one registered tag last) and ask again for the rest
     {
@@ -633,29 +662,26 @@ pub fn gen_c12(seed: u64, thorough: bool, only: Option<u64>, out: &mut Out) {
         }
       }
     }
-    // differs between inputs and between servers: a second input on this server, the same input on another server
-    let mut input2 = input.clone();
-    if input2.is_empty() { input2.push(0) } else { let l = input2.len(); input2[l - 1] ^= 1; }
-    for (inp, srv_new) in [(input2, false), (input.clone(), true)] {
-      let (mut w2, head2) = World::new(&mds);
-      let ww = if srv_new { &mut w2 } else { &mut w };
-      let (b, rs) = blind(&inp);
-      if let Some(ev) = ww.eval(0, mds[0], &b, false) {
-        let ub = Client::unblind(&ev.output, &CurveScalar::from(rs));
-        let mut fin = [0u8; 32];
-        Client::finalize(&inp, mds[0], &ub, &mut fin);
-        if Some(&fin.to_vec()) == per_tag.get(&mds[0]) {
-          verdict = Err(if srv_new { "two independently keyed servers give the same output".to_string() } else { "two different inputs give the same output".to_string() });
+    // key rotation in place: the new server in the old server's place answers under ITS key - with and without proof alike
+    {
+      let (bq, _) = blind(&input);
+      let pt = Point::from(&bq[..]);
+      let md = *mds.last().unwrap();
+      let mut slot = Server::new(mds.clone()).expect("server");
+      let _ = slot.eval(&pt, md, false);
+      slot = Server::new(mds.clone()).expect("server");
+      let plain = slot.eval(&pt, md, false).ok().map(|e| e.output.as_bytes().to_vec());
+      let proved = slot.eval(&pt, md, true).ok();
+      let pk = slot.get_public_key();
+      match (plain, proved) {
+        (Some(a), Some(ev)) => {
+          if a != ev.output.as_bytes().to_vec() {
+            verdict = Err(format!("a server that replaced another one in place answers tag {} differently with and without proof", md));
+          } else if guarded(|| Client::verify(&pk, &pt, &ev, md)) != Some(true) {
+            verdict = Err("an honest verifiable evaluation of a freshly created server does not verify".to_string());
+          }
         }
-        let key = fin.to_vec();
-        let desc = format!("group {} {}", gi, if srv_new { "other server" } else { "other input" });
-        if let Some(prev) = finals.insert(key, desc.clone()) {
-          verdict = Err(format!("output collision between {} and {}", prev, desc));
-        }
-      }
-      if srv_new {
-        let (c, o, v) = w2.finish(head2);
-        out.case(c, o, v);
+        _ => verdict = Err("a freshly created server refused a registered tag".to_string()),
       }
     }
     let (c, o, v) = w.finish(head);
@@ -1002,6 +1028,22 @@ fn json_pt_obs(js: &str) -> String {
 pub fn gen_json(seed: u64, thorough: bool, out: &mut Out) {
   let mut r = Prng::for_case(seed, "C15j", 0);
   let s = Server::new(vec![1u8, 2]).expect("server");
+  // restored values are EQUAL to the originals (==, not only byte-identical), also when the 32 bytes are no point
+  for raw in [vec![0xffu8; 32], vec![0u8; 32], { let mut x = vec![1u8; 32]; x[31] = 0x80; x }, blind(b"x").0] {
+    let p = Point::from(&raw[..]);
+    let pj = serde_json::to_string(&p).unwrap();
+    let po = json_pt_obs(&pj);
+    let eq = serde_json::from_str::<Point>(&pj).map(|q| q == p).unwrap_or(false);
+    out.case(format!("json.pt {}", hex(pj.as_bytes())), po, if eq { Ok(()) } else { Err(format!("the point {} restored from JSON is not equal to the original", hex(&raw))) });
+    // the same inside a public key
+    let mut pkb = s.get_public_key().serialize_to_bincode().unwrap();
+    pkb[..32].copy_from_slice(&raw);
+    if let Ok(k1) = ServerPublicKey::load_from_bincode(&pkb) {
+      let again = k1.serialize_to_bincode().ok().and_then(|b| ServerPublicKey::load_from_bincode(&b).ok());
+      let same = again.map(|k2| k2 == k1).unwrap_or(false);
+      out.case(format!("pk.load {}", hex(&pkb)), format!("ok {}", hex(&k1.serialize_to_bincode().unwrap())), if same { Ok(()) } else { Err(format!("a public key with base point {} restored from its binary form is not equal to the original", hex(&raw))) });
+    }
+  }
   // the neutral element is a point like any other: the evaluation of the neutral request (32 zero bytes) and the
   // neutral point itself survive their JSON forms
   for verifiable in [false, true] {
